@@ -128,6 +128,11 @@ def run(ctx):
     # the read-only result differ from the mutable one although both evaluators agree
     from rules import c12
     c12.run(_Renamed(ctx, 'R11.7'))
+    # R11.8 "the result of evaluating with a mutable context" is observed on a copy of the context (the immutable form keeps the
+    # original): the copy must be the same context, so Clone for HashMapContext is the field-wise clone (decided by interpretation)
+    from rules.common import fieldwise_clone
+    okc, how = fieldwise_clone(prog)
+    ctx.check(okc, 'R11.8', 'HashMapContext:Clone', 'derived-clone', 'Clone for HashMapContext copies every field (variables, functions, the builtin switch): a cloned context evaluates like the original (%s)' % how)
 
 
 def witness(ctx):
